@@ -19,8 +19,14 @@ func measure(f func()) uint64 {
 func TestC20(t *testing.T) {
 	out := openOut(t, "C20")
 	defer out.close()
+	blown := 0
 	do := func(tag string, ty *Ty, data []byte) {
 		if isLeafTy(ty) {
+			return
+		}
+		// once a few decodes have allocated hundreds of megabytes the finding is made: do not
+		// keep allocating gigabytes for the rest of the stream
+		if blown >= 3 {
 			return
 		}
 		var res string
@@ -41,6 +47,10 @@ func TestC20(t *testing.T) {
 					return ""
 				})
 			})
+		}
+		if va > 1<<27 || fa > 1<<27 {
+			blown++
+			runtime.GC()
 		}
 		out.emit(tag, "c20", []string{ty.Sexp(), hexBytes(data)}, joinKV("res="+res, "alloc="+hx(va), "falloc="+hx(fa)))
 	}
